@@ -2,8 +2,8 @@
     Model over exact rationals, for static categorical labels without hierarchies; [alpha] a non-negative integer
     exponent (weight of rank d = 1 / d^alpha). *)
 From Coq Require Import QArith.
-From DynVerif Require Import Base Graph Derived Annotate Paths Conformity Rename.
-From DynVerif.proofs Require Import ConfFacts RenameCore RenamePaths RenameConf.
+From DynVerif Require Import Base Graph Derived Annotate Paths Conformity Spec Rename.
+From DynVerif.proofs Require Import C01Facts ConfFacts RenameCore RenamePaths RenameConf RenameInjCore RenameInjPaths RenameInjConf.
 #[local] Open Scope Z_scope.
 
 (** every score lies in [-1, 1] *)
@@ -58,35 +58,38 @@ Theorem C20_sliding : forall dg delta alphas tabs psize ptype,
 Proof. exact sliding_pointwise. Qed.
 Print Assumptions C20_sliding.
 
-(** invariance under renaming NODE ids -- PARTIAL: proved for every ORDER-PRESERVING renaming f (strictly increasing
-    on the integers that code the ids: shifts, scalings, any re-coding that keeps the order).  The whole pipeline is
-    equivariant: add_interaction, every query, time_slice ([RenameCore]), temporal_dag, the path search, the
-    annotation ([RenamePaths]), ranks, label frequencies, scores ([RenameConf]); the result of the renamed run is the
-    original result with the node keys renamed, score for score (Leibniz equality of the reduced fractions).
-    Order preservation is needed only because the MODEL stores an undirected pair under (min, max); the
-    implementation never compares node ids.  For renamings that do not keep the order the statement is validated on
-    the implementation only (every case is run a second time under a random permutation of the ids). *)
-Theorem C20_node_renaming_partial : forall f, mono f -> forall g start delta alphas tabs psize ptype,
-  delta_conformity (ren f g) start delta alphas (map (ren_tab f) tabs) psize ptype
+(** invariance under renaming NODE ids, for EVERY injective renaming f: the graph built by the renamed calls, with
+    the label tables re-keyed, gets the original result with the node keys renamed, score for score (Leibniz
+    equality of the reduced fractions).  The whole pipeline is equivariant: add_interaction, every query, time_slice
+    ([RenameInjCore]), temporal_dag, the path search, the annotation ([RenameInjPaths]), ranks, label frequencies,
+    scores ([RenameInjConf]).  [renI f g] renames the endpoints in a graph state and re-normalises the keys of
+    undirected pairs (the model stores them under (min, max)); it IS the graph built by the renamed calls
+    ([C20_renaming_builds]).  [keys_norm] (stored keys in normal form) holds of every reachable graph and slice. *)
+Theorem C20_node_renaming : forall f, inj f -> forall dir cs start delta alphas tabs psize ptype,
+  delta_conformity (run_calls (G0 dir) (map (ren_call f) cs)) start delta alphas (map (ren_tab f) tabs) psize ptype
+  = ren_conf f (delta_conformity (run_calls (G0 dir) cs) start delta alphas tabs psize ptype).
+Proof. exact delta_conformity_renamed_calls. Qed.
+Print Assumptions C20_node_renaming.
+Theorem C20_node_renaming_state : forall f, inj f -> forall g, keys_norm g -> forall start delta alphas tabs psize ptype,
+  delta_conformity (renI f g) start delta alphas (map (ren_tab f) tabs) psize ptype
   = ren_conf f (delta_conformity g start delta alphas tabs psize ptype).
-Proof. exact ren_delta_conformity. Qed.
-Print Assumptions C20_node_renaming_partial.
-Theorem C20_node_renaming_sliding_partial : forall f, mono f -> forall g delta alphas tabs psize ptype,
-  sliding_delta_conformity (ren f g) delta alphas (map (ren_tab f) tabs) psize ptype
+Proof. exact renI_delta_conformity. Qed.
+Print Assumptions C20_node_renaming_state.
+Theorem C20_node_renaming_sliding : forall f, inj f -> forall g, keys_norm g -> forall delta alphas tabs psize ptype,
+  sliding_delta_conformity (renI f g) delta alphas (map (ren_tab f) tabs) psize ptype
   = map (fun tr => (fst tr, ren_conf f (snd tr))) (sliding_delta_conformity g delta alphas tabs psize ptype).
-Proof. exact ren_sliding_delta_conformity. Qed.
-Print Assumptions C20_node_renaming_sliding_partial.
-(** the renamed graph is the graph built from the renamed calls: renaming commutes with add_interaction *)
-Theorem C20_renaming_builds : forall f, mono f -> forall g u v t e,
-  add_interaction (ren f g) (f u) (f v) t e = (ren f (fst (add_interaction g u v t e)), snd (add_interaction g u v t e)).
-Proof. exact ren_add_interaction. Qed.
+Proof. exact renI_sliding_delta_conformity. Qed.
+Print Assumptions C20_node_renaming_sliding.
+Theorem C20_renaming_builds : forall f, inj f -> forall dir cs,
+  renI f (run_calls (G0 dir) cs) = run_calls (G0 dir) (map (ren_call f) cs) /\ keys_norm (run_calls (G0 dir) cs).
+Proof. intros f Hf dir cs. split; [apply renI_reach; exact Hf|apply keys_norm_reach]. Qed.
 Print Assumptions C20_renaming_builds.
 Example C20_renaming_example :
-  let f := fun x => 10 * x + 3 in
-  let g := fst (add_interaction (fst (add_interaction (empty_graph false true) 1 2 (Some 0) None)) 2 3 (Some 1) None) in
-  let g' := fst (add_interaction (fst (add_interaction (empty_graph false true) 13 23 (Some 0) None)) 23 33 (Some 1) None) in
-  ren f g = g' /\
-  delta_conformity g' 0 2 [1] [[(13, 0); (23, 0); (33, 1)]] 1 0 = ren_conf f (delta_conformity g 0 2 [1] [[(1, 0); (2, 0); (3, 1)]] 1 0).
+  let f := fun x => 10 - x in                               (* order-reversing *)
+  let cs := [mkCall 1 2 0 None; mkCall 2 3 1 None] in
+  map (ren_call f) cs = [mkCall 9 8 0 None; mkCall 8 7 1 None] /\
+  delta_conformity (run_calls (G0 false) (map (ren_call f) cs)) 0 2 [1] [[(9, 0); (8, 0); (7, 1)]] 1 0
+  = ren_conf f (delta_conformity (run_calls (G0 false) cs) 0 2 [1] [[(1, 0); (2, 0); (3, 1)]] 1 0).
 Proof. vm_compute. auto. Qed.
 Print Assumptions C20_renaming_example.
 
